@@ -1,57 +1,73 @@
 (* C05 -- Bidders only surface commitments validly signed for the bid they sent.
    Statements only; every proof is [exact <lemma>].
 
-   Vocabulary (model/PreconfBidder.v).  [send_bid o a view D] is SendBid called with arguments
-   [a] while the peers [view] are connected and the caller's context expires at abstract time
-   [D]; [o] are the signer's answers (construct = ConstructSignedBid, verify =
-   VerifyPreConfirmation, both arbitrary functions that may also fail or panic).  Every peer
-   carries the script of its stream ([p_reply]: NewStream error, write error, read error, error
-   frame, silence, or decodable frames) and the time [p_time] at which that happens.
-   [SRun r] = a channel was returned: [r_sent] the signed bid, [r_contacted] one entry per
-   NewStream call with the messages written, [r_delivered] the (time, value) pairs received on
-   the channel, [r_close] the time the channel is closed. *)
+   Vocabulary (model/PreconfBidder.v).  [send_bid_op tr o a view D] is SendBid called with
+   arguments [a] at time 0 while the peers [view] are connected; the caller's context expires at
+   abstract time [D] (D = 0: it had expired before the call).  [o] are the signer's answers
+   (construct = ConstructSignedBid, verify = VerifyPreConfirmation: arbitrary functions that may
+   fail or panic).  [tr] says, per operation, whether the transport's NewStream / WriteMsg /
+   ReadMsg return when the context ends ([ctx_newstream], [ctx_write], [ctx_read]) and how the
+   goroutine's final select resolves when the send and the expired context are both ready
+   ([pick_send]); [ctx_transport] = all three watch the context, which is what pkg/p2p/libp2p does
+   now (regenerated facts, [c05_src_transport]).  Every peer carries the script of its stream
+   ([p_reply]: NewStream fails, write fails, read fails, error frame, silence, or decodable frames)
+   and the time [p_time] of that event.  [XRun r] = a channel was returned: [xr_sent] the signed
+   bid, [xr_contacted] one entry per NewStream call with the messages handed to WriteMsg,
+   [xr_delivered] the (time, value) pairs received on the channel, [xr_close] when the channel is
+   closed ([At t] or [Never]).
+
+   [send_bid o a view D] is the earlier, coarser reading used by the composed theorems further
+   down: a call made before its deadline on [ctx_transport]; C05_op_is_send_bid relates the two. *)
 From Coq Require Import List NArith ZArith Bool.
 From Coq Require Import Permutation.
 From MevVerif Require Import lib.Bytes model.PreconfBidder check.Check_C05 proofs.PreconfBidder_proofs.
 Import ListNotations.
 Open Scope N_scope.
 
-(* Every delivered value is the first frame [c0] of a connected provider that arrived before the
-   deadline, was accepted by the signer with recovered address [addr], carries that address as
-   its provider address and embeds exactly the bid this call signed and sent (all fields, digest,
-   signature, no extra fields).  The delivered values are the concatenation of per-provider
-   contributions of length at most one; a provider that does not answer validly contributes
-   nothing, one that does contributes exactly its first frame. *)
-Theorem C05_surface : forall o a view D r,
-  send_bid o a view D = SRun r ->
-  construct o a = Ok (r_sent r) /\
-  (forall t c, In (t, c) (r_delivered r) ->
+(* SAFETY, on every transport and for every resolution of the final select.  Every delivered value
+   is the first frame [c0] of a connected provider, accepted by the signer with recovered address
+   [addr], carrying that address as its provider address and embedding exactly the bid this call
+   signed and sent (all fields, digest, signature, no extra fields); on a transport whose ReadMsg
+   watches the context it arrived strictly before the deadline.  The delivered values are the
+   concatenation of per-provider contributions of length at most one.
+   COMPLETENESS is claimed only for an answer STRICTLY before the deadline ([p_time p < D]): such a
+   provider contributes exactly its first frame.  A reply that becomes readable AT the deadline may
+   or may not be delivered (ReadMsg's select, then the goroutine's
+   select { case ch <- c: ; case <-ctx.Done(): }): either outcome is allowed, see class
+   reply-at-deadline of the driver.  A provider that does not answer validly contributes nothing
+   (given ReadMsg watches the context, or the final select prefers the expired context). *)
+Theorem C05_surface : forall tr o a view D r,
+  send_bid_op tr o a view D = XRun r ->
+  construct o a = Ok (xr_sent r) /\
+  (forall t c, In (t, c) (xr_delivered r) ->
      exists p c0 rest addr,
-       In p view /\ p_type p = TProvider /\ p_reply p = RFrames c0 rest /\ p_time p < D /\ t = p_time p /\
-       verify o c0 = Ok addr /\ c = set_prov c0 addr /\ c_prov c = addr /\ c_bid c = Some (r_sent r)) /\
+       In p view /\ p_type p = TProvider /\ p_reply p = RFrames c0 rest /\ t = p_time p /\
+       (ctx_read tr = true -> t < D) /\
+       verify o c0 = Ok addr /\ c = set_prov c0 addr /\ c_prov c = addr /\ c_bid c = Some (xr_sent r)) /\
   (exists contrib : peer -> list (N * commitment),
-     r_delivered r = flat_map contrib (get_peers TProvider view) /\
+     xr_delivered r = flat_map contrib (get_peers TProvider view) /\
      forall p, (length (contrib p) <= 1)%nat /\
-               (~ answers_validly o (r_sent r) D p -> contrib p = []) /\
+               ((ctx_read tr = true \/ pick_send tr = false) ->
+                ~ answers_validly o (xr_sent r) D p -> contrib p = []) /\
                (forall c0 rest addr, p_reply p = RFrames c0 rest -> p_time p < D ->
-                  verify o c0 = Ok addr -> c_bid c0 = Some (r_sent r) ->
+                  verify o c0 = Ok addr -> c_bid c0 = Some (xr_sent r) ->
                   contrib p = [(p_time p, set_prov c0 addr)])).
-Proof. exact surface. Qed.
+Proof. exact op_surface. Qed.
 Print Assumptions C05_surface.
 
 (* If the signer does not look at the ProviderAddress field (premise; the real one does not hash
    it), the value handed to the caller itself verifies, to the address it reports. *)
-Theorem C05_surface_verified : forall o a view D r,
+Theorem C05_surface_verified : forall tr o a view D r,
   (forall c x, verify o (set_prov c x) = verify o c) ->
-  send_bid o a view D = SRun r ->
-  forall t c, In (t, c) (r_delivered r) ->
-    verify o c = Ok (c_prov c) /\ c_bid c = Some (r_sent r) /\ t < D.
-Proof. exact surface_verified. Qed.
+  send_bid_op tr o a view D = XRun r ->
+  forall t c, In (t, c) (xr_delivered r) ->
+    verify o c = Ok (c_prov c) /\ c_bid c = Some (xr_sent r) /\ (ctx_read tr = true -> t < D).
+Proof. exact op_surface_verified. Qed.
 Print Assumptions C05_surface_verified.
 
-(* Who does not answer validly: no decodable frame (stream could not be opened, write or read
-   failed, error frame, silence), or not before the deadline, or a frame the signer rejects, or a
-   frame for another bid. *)
+(* Who does not answer validly ([answers_validly] unfolded -- a reading aid, not a result): no
+   decodable frame, or not before the deadline, or a frame the signer rejects, or a frame for
+   another bid. *)
 Theorem C05_silent : forall o sent D p,
   (forall c rest, p_reply p <> RFrames c rest) \/ D <= p_time p \/
   (forall c rest, p_reply p = RFrames c rest -> forall addr, verify o c <> Ok addr) \/
@@ -61,41 +77,63 @@ Proof. exact silent. Qed.
 Print Assumptions C05_silent.
 
 (* One NewStream per peer of type provider connected at call time, in the order the topology
-   returned them, and exactly the signed bid written once on every stream that opened. *)
-Theorem C05_fanout : forall o a view D r,
-  send_bid o a view D = SRun r ->
-  construct o a = Ok (r_sent r) /\
-  Forall2 (fun p ct => fst ct = p_addr p /\ snd ct = if opens_stream p then [r_sent r] else [])
-          (get_peers TProvider view) (r_contacted r) /\
+   returned them.  What is handed to WriteMsg on a stream is never anything but the signed bid, at
+   most once -- and it is handed over exactly when the stream opened: the script does not make
+   NewStream fail and NewStream did not see an already expired context
+   ([opens_stream_op tr D p] = reply is not RNewStreamErr and not (ctx_newstream tr and D = 0)). *)
+Theorem C05_fanout : forall tr o a view D r,
+  send_bid_op tr o a view D = XRun r ->
+  construct o a = Ok (xr_sent r) /\
+  Forall2 (fun p ct => fst ct = p_addr p /\ snd ct = if opens_stream_op tr D p then [xr_sent r] else [])
+          (get_peers TProvider view) (xr_contacted r) /\
   (forall p, In p (get_peers TProvider view) <-> In p view /\ p_type p = TProvider).
-Proof. exact fanout. Qed.
+Proof. exact op_fanout. Qed.
 Print Assumptions C05_fanout.
+
+(* With a context that had expired before the call, on the repository's transport: streams are not
+   opened, nothing is written, nothing delivered, the channel is closed at once. *)
+Theorem C05_expired : forall o a view r,
+  send_bid_op ctx_transport o a view 0 = XRun r ->
+  (forall ad ws, In (ad, ws) (xr_contacted r) -> ws = []) /\ xr_delivered r = [] /\ xr_close r = At 0.
+Proof. exact op_expired. Qed.
+Print Assumptions C05_expired.
 
 (* The call is refused (no channel, nobody contacted) exactly when the bid cannot be signed or no
    provider is connected. *)
-Theorem C05_refused : forall o a view D,
-  send_bid o a view D = SErr <->
+Theorem C05_refused : forall tr o a view D,
+  send_bid_op tr o a view D = XErr <->
   (exists e, construct o a = Err e) \/ (exists s, construct o a = Ok s /\ get_peers TProvider view = []).
-Proof. exact refused. Qed.
+Proof. exact op_refused. Qed.
 Print Assumptions C05_refused.
 
 (* No reply script can crash the call unless the signer itself panics. *)
-Theorem C05_no_crash : forall o a view D,
-  construct o a <> Panic -> (forall c, verify o c <> Panic) -> send_bid o a view D <> SPanic.
-Proof. exact no_crash. Qed.
+Theorem C05_no_crash : forall tr o a view D,
+  construct o a <> Panic -> (forall c, verify o c <> Panic) -> send_bid_op tr o a view D <> XPanic.
+Proof. exact op_no_crash. Qed.
 Print Assumptions C05_no_crash.
 
-(* The channel is closed no later than the deadline, not before every provider has finished,
-   exactly when the last one does, and nothing is delivered after it.  [finish_time D p] is
-   [p_time p] for a provider whose scripted event lies before [D], and [D] for a silent or late
-   one (C05_finish_time). *)
-Theorem C05_termination : forall o a view D r,
-  send_bid o a view D = SRun r ->
-  r_close r <= D /\
-  (forall p, In p (get_peers TProvider view) -> finish_time D p <= r_close r) /\
-  (exists p, In p (get_peers TProvider view) /\ r_close r = finish_time D p) /\
-  (forall t c, In (t, c) (r_delivered r) -> t <= r_close r).
-Proof. exact termination. Qed.
+(* TERMINATION.  On every transport the channel is closed when the last goroutine is finished;
+   [finish_op tr D p] is when that is, computed from the script, the transport's flags and D
+   through [wait]: an operation that watches the context returns at D at the latest, one that does
+   not returns at its scripted event -- after D, or never. *)
+Theorem C05_close : forall tr o a view D r,
+  send_bid_op tr o a view D = XRun r ->
+  xr_close r = tmax_list (map (finish_op tr D) (get_peers TProvider view)).
+Proof. exact op_close. Qed.
+Print Assumptions C05_close.
+
+(* FROM the premise that NewStream, WriteMsg and ReadMsg all watch the context: every goroutine is
+   finished at its scripted event if that lies before D and at D otherwise, so the channel is
+   closed at some T <= D, T is the finishing time of the last provider, and nothing is delivered
+   at or after the deadline or after T. *)
+Theorem C05_termination : forall tr o a view D r,
+  ctx_newstream tr = true -> ctx_write tr = true -> ctx_read tr = true ->
+  send_bid_op tr o a view D = XRun r ->
+  exists T, xr_close r = At T /\ T <= D /\
+    (forall p, In p (get_peers TProvider view) -> finish_op tr D p = At (finish_time D p) /\ finish_time D p <= T) /\
+    (exists p, In p (get_peers TProvider view) /\ T = finish_time D p) /\
+    (forall t c, In (t, c) (xr_delivered r) -> t < D /\ t <= T).
+Proof. exact op_termination. Qed.
 Print Assumptions C05_termination.
 
 Theorem C05_finish_time : forall D p,
@@ -103,6 +141,26 @@ Theorem C05_finish_time : forall D p,
   ((p_reply p = RSilence \/ D <= p_time p) /\ finish_time D p = D).
 Proof. exact finish_time_spec. Qed.
 Print Assumptions C05_finish_time.
+
+(* The premise is needed, operation by operation: with a ReadMsg that does not watch the context
+   and a provider that takes the bid and stays silent the channel is NEVER closed; with a NewStream
+   or WriteMsg that does not and is blocked until time 9, deadline 5, it is closed at 9. *)
+Theorem C05_termination_needs_ctx :
+  (exists r, send_bid_op (mkTransport true true false false) w_oracles w_args silent_view 5 = XRun r /\
+             xr_close r = Never) /\
+  (exists r, send_bid_op (mkTransport false true true false) w_oracles w_args
+                         [mkPeer [1] TProvider RNewStreamErr 9] 5 = XRun r /\ xr_close r = At 9) /\
+  (exists r, send_bid_op (mkTransport true false true false) w_oracles w_args
+                         [mkPeer [1] TProvider RWriteErr 9] 5 = XRun r /\ xr_close r = At 9).
+Proof. exact op_termination_needs_ctx. Qed.
+Print Assumptions C05_termination_needs_ctx.
+
+(* For a call made before its deadline the operational model on the repository's transport is the
+   coarser reading [send_bid] used below. *)
+Theorem C05_op_is_send_bid : forall o a view D,
+  0 < D -> send_bid_op ctx_transport o a view D = lift_result (send_bid o a view D).
+Proof. exact op_is_send_bid. Qed.
+Print Assumptions C05_op_is_send_bid.
 
 (* The code before 93c1731 (no comparison of the embedded bid) surfaces a verified commitment
    for a bid that was not sent. *)
@@ -115,31 +173,48 @@ Print Assumptions C05_surface_v0_refuted.
 
 (* The executable checker that is evaluated on the implementation's observations in every run
    (check/Check_C05.v: [check_run], clause keys surfaced:other-bid / unverified / wrong-address /
-   duplicate, not-offered, not-closed) is silent on everything the model does ... *)
-Theorem C05_checker_sound : forall o a view D r,
+   duplicate, not-offered, not-closed) is silent on everything the model does on a transport that
+   watches the context ... *)
+Theorem C05_checker_sound : forall tr o a view D r,
+  ctx_newstream tr = true -> ctx_write tr = true -> ctx_read tr = true ->
   (forall c x, verify o (set_prov c x) = verify o c) ->
   NoDup (map p_addr (get_peers TProvider view)) ->
-  send_bid o a view D = SRun r ->
-  check_run (verify o) (r_sent r) (get_peers TProvider view) D
-            (r_contacted r) (r_delivered r) (Some (r_close r)) = [].
+  send_bid_op tr o a view D = XRun r ->
+  exists T, xr_close r = At T /\
+    check_run (verify o) (xr_sent r) (get_peers TProvider view) D
+              (xr_contacted r) (xr_delivered r) (Some T) = [].
 Proof. exact checker_sound. Qed.
 Print Assumptions C05_checker_sound.
 
 (* ... and whenever it is silent on an observation, that observation has the property: every
    delivered value verifies to the address it reports and embeds the bid sent; the delivered
    values (provider address aside) are a sub-multiset of the first frames that arrived in time,
-   one per provider; exactly the providers were contacted and exactly the signed bid was written
-   on every stream that opened; the channel was closed when the last provider finished. *)
+   one per provider; exactly the providers were contacted; on no stream was anything but the signed
+   bid handed to WriteMsg, and it was handed over unless the stream could not be opened (NewStream
+   failed by script, or the context had expired before the call); the channel was closed when the
+   last provider finished. *)
 Theorem C05_checker_reflects : forall vf sent provs D contacted delivered closed,
   check_run vf sent provs D contacted delivered closed = [] ->
   (forall t c, In (t, c) delivered -> vf c = Ok (c_prov c) /\ c_bid c = Some sent) /\
   (exists rest, Permutation (map (fun tc => strip (snd tc)) delivered ++ rest) (candidates D provs)) /\
   Permutation (map fst contacted) (map p_addr provs) /\
   (forall ad ws, In (ad, ws) contacted ->
-     exists p, In p provs /\ p_addr p = ad /\ ws = if opens_stream p then [sent] else []) /\
+     exists p, In p provs /\ p_addr p = ad /\ (ws = [] \/ ws = [sent]) /\
+               (ws = [] -> p_reply p = RNewStreamErr \/ D = 0) /\
+               (ws = [sent] -> p_reply p <> RNewStreamErr)) /\
   closed = Some (max_list (map (finish_time D) provs)).
 Proof. exact checker_reflects. Qed.
 Print Assumptions C05_checker_reflects.
+
+(* "At most one per contacted provider" is per stream: the recovered signer is not required to be
+   the contacted peer, so two distinct providers relaying one commitment yield two deliveries that
+   report the same address (allowed by the text; recorded, not repaired). *)
+Theorem C05_same_address_twice :
+  exists view r t1 t2 c,
+    send_bid_op ctx_transport w_oracles w_args view 5 = XRun r /\
+    xr_delivered r = [(t1, c); (t2, c)] /\ NoDup (map p_addr view).
+Proof. exact same_address_twice. Qed.
+Print Assumptions C05_same_address_twice.
 
 (* ---- composition with C02, C03 and C19 (proofs/Compose_bidder.v) -------------------------------------
    In the theorems above the signer is an oracle pair.  Below it is the signer model itself, for an
